@@ -44,12 +44,13 @@ LABELS = {
 GROUP_ACTS = {'CreateGroup', 'Join', 'Leave', 'ChangeCoordinator'}
 
 
-def sweep(consumers):
-    """GetAssignments for every server x consumer x {current, previous} epoch"""
-    return [{'a': 'GetAssignments', 'srv': v, 'c': c, 'd': d} for v in SERVERS for c in consumers for d in (0, 1)]
+def sweep(consumers, rng):
+    """GetAssignments for every server x consumer at the current epoch, and one stale request"""
+    return ([{'a': 'GetAssignments', 'srv': v, 'c': c, 'd': 0} for v in SERVERS for c in consumers] +
+            [{'a': 'GetAssignments', 'srv': rng.choice(SERVERS), 'c': rng.choice(consumers), 'd': 1}])
 
 
-def from_graph(g, consumers, first_id):
+def from_graph(g, consumers, first_id, rng):
     paths, covered, total = graph.cover(g)
     out = []
     for root, p in paths:
@@ -59,7 +60,7 @@ def from_graph(g, consumers, first_id):
             name, args = graph.parse_label(g['edges'][i][2])
             steps.append(LABELS[name](args))
         out.append({'id': first_id + len(out), 'cfg': {'servers': SERVERS, 'streams': sorted(parts), 'parts': parts},
-                    'steps': steps + sweep(consumers)})
+                    'steps': steps + sweep(consumers, rng)})
     return out, covered, total
 
 
@@ -75,7 +76,7 @@ def from_sim(sims, first_id, rng):
             a.pop('e', None) if a['a'] == 'GetAssignments' else None
             steps.append(a)
         out.append({'id': first_id + len(out), 'cfg': {'servers': SERVERS, 'streams': sorted(parts), 'parts': parts},
-                    'steps': steps + sweep(['c1', 'c2', 'c3', 'c4'])})
+                    'steps': steps + sweep(['c1', 'c2', 'c3', 'c4'], rng)})
     return out
 
 
@@ -89,21 +90,27 @@ def key(b):
     return core.sha([b['cfg']['parts'], [s for s in b['steps'] if s['a'] != 'GetAssignments']])
 
 
-def execute(behaviours, d, test, subs, timeout=900, tag='direct'):
-    stim = os.path.join(d, 'stim-%s.json' % tag)
-    trace = os.path.join(d, 'trace-%s.ndjson' % tag)
-    core.write_json(stim, {'behaviours': behaviours})
-    if os.environ.get('VERIF_KEEP'):
-        core.log('stimuli at', stim)
-    rc, out, wall = core.go_test('server', test, {'VERIF_STIMULI': stim, 'VERIF_TRACE_OUT': trace},
-                                 timeout=timeout, subs=subs)
-    if rc != 0 or not os.path.exists(trace):
-        raise core.Inconclusive('harness %s failed rc=%s: %s' % (test, rc, out[-3000:]))
-    return trace
+def execute(sets, d, timeout=1500):
+    """sets: {binding: behaviours}; one go test process runs every binding asked for"""
+    env, traces = {}, {}
+    for binding, behaviours in sets.items():
+        stim = os.path.join(d, 'stim-%s.json' % binding)
+        traces[binding] = os.path.join(d, 'trace-%s.ndjson' % binding)
+        core.write_json(stim, {'behaviours': behaviours})
+        if os.environ.get('VERIF_KEEP'):
+            core.log('stimuli at', stim)
+        env['VERIF_STIMULI_' + BINDINGS[binding][1]] = stim
+        env['VERIF_TRACE_OUT_' + BINDINGS[binding][1]] = traces[binding]
+    tests = '|'.join(BINDINGS[b][0] for b in sets)
+    subs = sorted({s for b in sets for s in BINDINGS[b][2]})
+    rc, out, wall = core.go_test('server', '^(%s)$' % tests, env, timeout=timeout, subs=subs)
+    core.log('C12 go test wall %.1fs: %s' % (wall, out.strip().splitlines()[-1] if out.strip() else ''))
+    if rc != 0 or not all(os.path.exists(p) for p in traces.values()):
+        raise core.Inconclusive('harness failed rc=%s: %s' % (rc, out[-3000:]))
+    return traces
 
 
-def judge(rep, behaviours, trace, binding):
-    res = core.tlc_trace('Trace_Groups.tla', 'Trace_Groups.cfg', trace, timeout=1500)
+def judge(rep, behaviours, res, binding):
     by_id = {b['id']: b for b in behaviours}
     bad = {}
     for kind, tid, line, action, name, tag in res['fails']:
@@ -125,23 +132,33 @@ def judge(rep, behaviours, trace, binding):
 
 
 BINDINGS = {
-    'direct': ('^TestVerifGroupsDirect$', ['c12']),
-    'server': ('^TestVerifGroupsFSM$', ['c06']),
+    'direct': ('TestVerifGroupsDirect', 'DIRECT', ['c12']),
+    'server': ('TestVerifGroupsFSM', 'FSM', ['c06']),
 }
 
 
-def run_binding(rep, behaviours, binding, d):
-    test, subs = BINDINGS[binding]
-    trace = execute(behaviours, d, test, subs, tag=binding)
-    return judge(rep, behaviours, trace, binding)
+def run_bindings(rep, sets, d):
+    from concurrent.futures import ThreadPoolExecutor
+    traces = execute(sets, d)
+    with ThreadPoolExecutor(max_workers=2) as ex:   # one single-worker TLC per binding
+        futs = {b: ex.submit(core.tlc_trace, 'Trace_Groups.tla', 'Trace_Groups.cfg', traces[b], 1500) for b in sets}
+        results = {b: f.result() for b, f in futs.items()}
+    for b, r in results.items():
+        core.log('C12 trace validation %s: %d lines in %.1fs' % (b, r['lines'], r['wall']))
+    return {b: judge(rep, sets[b], results[b], b) for b in sets}
 
 
 def run(rep, tier, seed, replay):
+    import time
+    t0 = time.time()
+
+    def lap(what):
+        core.log('C12 %-28s %6.1fs' % (what, time.time() - t0))
     rng = random.Random(seed)
     if replay:
         r = replay['replay']
         with core.scratch('c12') as d:
-            run_binding(rep, r['behaviours'], r.get('binding', 'direct'), d)
+            run_bindings(rep, {r.get('binding', 'direct'): r['behaviours']}, d)
         rep.cov['rule'] = 'replay of a saved stimulus'
         rep.cov['samples'] = r['behaviours'][:1]
         return
@@ -150,6 +167,7 @@ def run(rep, tier, seed, replay):
     res = core.tlc_check('MC_Groups.tla', 'MC_Groups.cfg' if quick else 'MC_Groups_thorough.cfg',
                          timeout=3000, coverage=not quick)
     rep.add_design('MC_Groups' if quick else 'MC_Groups_thorough', res)
+    lap('design check')
     if res['violated']:
         raise core.Inconclusive('design check reports %s (specification and property disagree on the model): %s'
                                 % (res['violated'], res['out'][-1500:]))
@@ -160,20 +178,21 @@ def run(rep, tier, seed, replay):
     # 2. behaviours: every transition of the small instance + simulation
     g = graph.tlc_dump('MC_Groups.tla', 'MC_Groups_replay.cfg' if quick else 'MC_Groups_replay_thorough.cfg',
                        workers=min(core.NCPU, 8), timeout=1500)
-    behaviours, covered, total = from_graph(g, ['c1', 'c2', 'c3'], 1)
+    lap('dot dump')
+    behaviours, covered, total = from_graph(g, ['c1', 'c2', 'c3'], 1, rng)
     n_graph = len(behaviours)
     sims = core.tlc_simulate('MC_Groups.tla', 'Sim_Groups.cfg', 600 if quick else 6000, 14, seed, timeout=1200)
     behaviours += from_sim(sims, len(behaviours) + 1, rng)
+    lap('simulation')
     # 3./4. execute on the real code, TLC judges
-    lines = 0
+    sets = {'direct': behaviours}
+    if os.path.isdir(os.path.join(core.HARNESS, 'server', 'c06')) and not os.environ.get('VERIF_C12_NOSERVER'):
+        sets['server'] = behaviours if not quick else behaviours[:n_graph][::40] + behaviours[n_graph:][:100]
+        rep.cov['server_binding_behaviours'] = len(sets['server'])
     with core.scratch('c12') as d:
-        tr = run_binding(rep, behaviours, 'direct', d)
-        lines += tr['validated']
-        srv = behaviours if not quick else behaviours[:n_graph][::3] + behaviours[n_graph:][:300]
-        if os.path.isdir(os.path.join(core.HARNESS, 'server', 'c06')) and not os.environ.get('VERIF_C12_NOSERVER'):
-            tr2 = run_binding(rep, srv, 'server', d)
-            lines += tr2['validated']
-            rep.cov['server_binding_behaviours'] = len(srv)
+        trs = run_bindings(rep, sets, d)
+    lines = sum(tr['validated'] for tr in trs.values())
+    lap('execution + trace validation')
     rep.cov['transitions_of_replay_model'] = total
     rep.cov['transitions_replayed'] = covered
     rep.cov['exhaustive'] = covered == total
